@@ -514,6 +514,16 @@ class LyingLenShort(list):
         return 0
 
 
+class RaisingBool:
+    def __bool__(self):
+        raise KeyError('bool')
+
+
+class OddBool:
+    def __bool__(self):
+        return 2  # not a bool: python itself raises TypeError for bool(x)
+
+
 def pool():
     leaf = optree.treespec_leaf()
     nil = optree.treespec_leaf(none_is_leaf=True)
@@ -525,6 +535,7 @@ def pool():
         (lambda *a, **k: None), (lambda *a, **k: a), int, list, dict, type(None), U.Point, U.Point(1, 2), os.terminal_size((1, 2)), leaf, nil, big, nss, it, iter([1]), (x for x in [1]),
         RaisingIter(), RaisingNext(), LyingLen([1, 2]), LyingLenShort([1, 2]), deque([1]), OrderedDict(a=1), defaultdict(int), U.CSeq([1]), range(3), range(10**6), 'x' * 100, [None] * 3, optree, _C, big.children(), big.paths(),
         U.Leaf(0), Ellipsis, NotImplemented, 3 + 4j, bytearray(b'x'), memoryview(b'abc'),
+        (lambda *a, **k: RaisingBool()), (lambda *a, **k: 'truthy-string'), (lambda *a, **k: 2), (lambda *a, **k: OddBool()),
     ]
 
 
